@@ -237,6 +237,15 @@ func c09Families() []string {
 			out = append(out, `a `+r+` "1"`, `a = "1" `+r+` b = "2"`, r+` a = "1" `+r, `a = "1" `+r+` b`, `a = `+r+`1`+r)
 		}
 	}
+	// long runs of one byte / rune class at a token boundary, inside a value and as a name (whatever quotes, truncates or
+	// classifies input text walks over them): continuation bytes without a lead byte, lead bytes without continuation,
+	// multi-byte runes, blanks, letters; lengths around 32 / 64 / 256 / 4096
+	for _, unit := range []string{"\x80", "\xbf", "\xc3", "\xf0", "\xff", "é", "日", "\U0001F600", " ", "\t", "x", "_", "$", "\""} {
+		for _, k := range []int{2, 3, 4, 8, 15, 16, 17, 31, 32, 33, 34, 63, 64, 65, 255, 256, 257, 4095, 4096, 4097} {
+			run := strings.Repeat(unit, k)
+			out = append(out, run, `a = "b" & `+run, run+` a = "b"`, `a = "`+run+`"`, `a = "b" ; `+run, `a = "b" `+run+` & c = "d"`, `a = "`+run, run+` = "b"`)
+		}
+	}
 	// strings whose last quote is part of an escaped pair: they are unterminated
 	for _, v := range []string{`"abc""`, `"""`, `""x""`, `"a""b""`, `"""""`, `" ""`} {
 		out = append(out, "a = "+v, "a = "+v+" ; a", `a = "x" & b = `+v)
